@@ -101,7 +101,9 @@ CLAIMED = {
              "src/test_image.rs on every run: for all 0 <= W,H < 2^31 no arithmetic site panics and every rectangle is valid; for all W,H >= 32 every pixel "
              "is painted, the outer ring is white and the next ring black, the bar area is red | green | blue in that order with white/black only "
              "inside the glyph boxes and the marker, and seven explicit witness cells separate the picture from each of its rotated / mirrored images "
-             "(lia over the rectangle arithmetic, not a sweep). Correspondence: the real draw on a draw_iter-only clipping target for all sizes 0..48 "
+             "(lia over the rectangle arithmetic, not a sweep); C19D: drawn through a Display in any valid configuration and orientation, every logical pixel's colour "
+             "lands in the framebuffer cell the orientation prescribes and nothing outside the panel window is touched (composition with C01), so the "
+             "diagnostic properties hold on the physical panel. Correspondence: the real draw on a draw_iter-only clipping target for all sizes 0..48 "
              "(thorough 0..96), probes up to 65535 x 33, three colour types, and through a real Display read back from the reference controller.",
         note="embedded-graphics Rectangle / Size arithmetic modelled from its source incl. debug_assert sites; colour constants' distinctness is exercised, not proved.",
         tech="machine-checked proof in Coq (lia over saturating rectangle arithmetic) over translator-regenerated constants + differential correspondence", ref="DESIGN.md §5 C19"),
